@@ -6,7 +6,7 @@ tag=sys.argv[1]; pids=sys.argv[2:]
 props={}
 for l in open('/verif/properties.jsonl'):
     d=json.loads(l); props[d['id']]=d
-t=open('/verif/tools/benignprompt_template.txt').read()
+t=open('/verif/tools/benignprompt_template%s.txt'%('2' if tag.startswith('b2') else '')).read()
 os.makedirs('/tmp/seedprompts',exist_ok=True)
 for pid in pids:
     d=props[pid]; wt='benign_'+pid.lower()+tag
